@@ -132,6 +132,10 @@ def run(ck):
     for s in ['[Cl,Br]-C', '[Si,P]', '[N,O]-C', 'C-[F,Cl,Br,I]', '[Sn,Na]~[A]', '[Co,Ni]', '[Cl,Br].[Na,K]']:
         for t in ['CCCl', 'BrCCB(C)C', 'CSC', 'C[Si](C)(C)I', 'NCCO', 'CC(F)CI', 'C=O.[Co]', 'N[Na]', '[Na+].[Cl-].NC']:
             cases.append({'key': f'smarts:{s}:{t}', 'kind': 'smarts', 't': t, 'p': s, 'rs': rnd.randrange(1 << 30), 'thiele': False})
+    # cycles that exist only through a coordinate bond (ring perception ignores them, the matcher must not), acyclic patterns on them
+    for s in ['CCO', 'NCCN', 'CCCC', 'C~O', 'CC', 'C1CO1', 'N~N']:
+        for t in ['C1C~O1', 'N1CCN~1', 'C1CC~C1.CCCC', 'C1CCO~1', 'N1CC~N1', 'C1C~C1', 'O1CCN~1.NCCO']:
+            cases.append({'key': f'smarts:{s}:{t}', 'kind': 'smarts', 't': t, 'p': s, 'rs': rnd.randrange(1 << 30), 'thiele': False})
     cases = ck.select('searches', cases)
     if cases:
         res = vlib.pmap('checks.c07', 'observe', cases)
